@@ -268,6 +268,84 @@ func C13(c *core.Ctx) {
 			c.Decide(bad == "", "R13.1", "ordered-case-index:"+mk, p.Pos(m.Pos), "each case tests progress+1 against its field's definition index", "ordered model "+mk+": "+bad)
 		}
 
+		// ---- R13.5 flag/field agreement inside the parser: a block that sets handled_F
+		// (or runs under !handled_F) assigns only value.F
+		{
+			bad := ""
+			nBlocks := 0
+			checkBlock := func(flag string, body []ast.Stmt) {
+				nBlocks++
+				for _, st := range body {
+					ast.Inspect(st, func(n ast.Node) bool {
+						// nested case/if bodies with their own flag are handled separately
+						if _, ok := n.(*ast.CaseClause); ok {
+							return false
+						}
+						as, ok := n.(*ast.AssignStmt)
+						if !ok {
+							return true
+						}
+						for _, l := range as.Lhs {
+							if se, ok := l.(*ast.SelectorExpr); ok {
+								if id, ok := se.X.(*ast.Ident); ok && id.Name == "value" && se.Sel.Name != flag && !strings.HasPrefix(se.Sel.Name, flag+"_") {
+									bad = fmt.Sprintf("block for field %s assigns value.%s (%s)", flag, se.Sel.Name, p.Pos(as.Pos()))
+								}
+							}
+						}
+						return true
+					})
+				}
+			}
+			flagOfBody := func(body []ast.Stmt) string {
+				for _, st := range body {
+					if as, ok := st.(*ast.AssignStmt); ok && len(as.Lhs) == 1 {
+						if id, ok := as.Lhs[0].(*ast.Ident); ok && strings.HasPrefix(id.Name, "handled_") {
+							return strings.TrimPrefix(id.Name, "handled_")
+						}
+					}
+				}
+				return ""
+			}
+			ast.Inspect(parse.Body, func(n ast.Node) bool {
+				switch x := n.(type) {
+				case *ast.CaseClause:
+					body := x.Body
+					// "case T: if cond { handled = true; handled_F = true; … }"
+					if len(body) == 1 {
+						if ifs, ok := body[0].(*ast.IfStmt); ok {
+							body = ifs.Body.List
+						}
+					}
+					if f := flagOfBody(body); f != "" {
+						checkBlock(f, body)
+					}
+				case *ast.IfStmt:
+					// "if !handled_F && err == nil { … }"
+					flag := ""
+					ast.Inspect(x.Cond, func(m ast.Node) bool {
+						if u, ok := m.(*ast.UnaryExpr); ok && u.Op == token.NOT {
+							if id, ok := u.X.(*ast.Ident); ok && strings.HasPrefix(id.Name, "handled_") {
+								flag = strings.TrimPrefix(id.Name, "handled_")
+							}
+						}
+						return true
+					})
+					if flag != "" {
+						checkBlock(flag, x.Body.List)
+					}
+				}
+				return true
+			})
+			c.Decide(bad == "" && nBlocks >= len(m.Fields), "R13.5", "flag-field-agreement:"+mk, p.Pos(m.Pos),
+				fmt.Sprintf("%d per-field blocks of the parser assign only their own field", nBlocks),
+				"generated parser of "+mk+": "+bad+" — the per-field block of one field writes another field (hand-edited or stale generated code): a present field is lost or an absent one keeps a stale value"+func() string {
+					if nBlocks < len(m.Fields) {
+						return fmt.Sprintf(" [only %d blocks for %d fields]", nBlocks, len(m.Fields))
+					}
+					return ""
+				}())
+		}
+
 		// ---- SSA rules on the parser
 		fn := p.Func(m.Pkg.PkgPath, m.Name+"ParsingContext", "Parse")
 		if fn == nil || fn.Blocks == nil {
@@ -450,6 +528,22 @@ func C13(c *core.Ctx) {
 			c.Und("R13.3", key, p.Pos(fn.Pos()), "cannot identify the field cursor (progress) or the unknown-element branch of the ordered parser")
 			continue
 		}
+		// R13.3b: the ordered loop runs while progress < number of fields of the definition
+		okBound := false
+		core.Instrs(fn, func(in ssa.Instruction) {
+			b, ok := in.(*ssa.BinOp)
+			if !ok || b.Op != token.LSS || b.X != ssa.Value(P) {
+				return
+			}
+			if k, isC := core.ConstInt(b.Y); isC && int(k) == len(m.Fields) {
+				for _, r := range core.Refs(b) {
+					if _, isIf := r.(*ssa.If); isIf {
+						okBound = true
+					}
+				}
+			}
+		})
+		c.Decide(okBound, "R13.3", "ordered-loop-bound:"+mk, p.Pos(fn.Pos()), fmt.Sprintf("the field loop runs while progress < %d (the number of fields)", len(m.Fields)), fmt.Sprintf("ordered parser of %s: the field loop is not bounded by progress < %d (number of fields of the definition): an element arriving at the last position is neither handled nor skipped", mk, len(m.Fields)))
 		// post-increment feeding the back edge of P
 		var X ssa.Value
 		for _, e := range P.Edges {
